@@ -292,6 +292,9 @@ fn run(ctx: &mut Ctx) {
         count_pool(c, st);
         case_fn(s, c, st)
     });
+    let total_wide = ctx.tier.pick(60_000, 1_500_000);
+    let strat_wide = move || wide_short_strategy(fix, true);
+    ctx.generated("wide-short", &strat_wide, total_wide, &|s, c, st| case_fn(s, c, st));
     let total_large = ctx.tier.pick(6000, 120000);
     let strat_large = move || case_strategy_large(ALL_POOLS, W_DEFAULT, fix);
     ctx.generated("gen-large", &strat_large, total_large, &|s, c, st| {
